@@ -285,7 +285,8 @@ def _frontend_fallback(pid, r, tier, seed):
             except Exception:
                 fns = list(ud.get('fallback_keys', []))
         if fns is None:
-            fns = [k for k, c in uo.fn_contracts.items() if not c.stub] + [k for k, c in uo.fn_contracts.items() if c.stub]
+            fns = list(props.UNITS.get(r.unit, {}).get('fallback_keys', [])) + \
+                [k for k, c in uo.fn_contracts.items() if not c.stub] + [k for k, c in uo.fn_contracts.items() if c.stub]
         seen_ops = set()
         for fn in fns:
             ops = tuple(witness.ops_for(fn))
